@@ -84,10 +84,35 @@ def gen_pure(ctx):
         p = rng.below(65536)
         yield "%s 4 %s %d" % (rng.choice(["port", "eprt"]), hx(a), p)
 
+
+from props.e2egen import *
+from props.e2egen import line as eline
+
+def gen_e2e(ctx):
+    """real sockets, several loopback addresses: the data connection must go to the address the CURRENT control connection was
+    opened to - also after a session that ended without disconnect (server dropped it, the call threw) and a connect to
+    another address"""
+    rng = ctx["rng"]
+    noop = "noop@" + R(b"200 ok")
+    def con(host, **kw):
+        return connect(tls=False, **kw).replace("connect:-:-", "connect:%s:-" % H(host), 1)
+    for mode in "pa":
+        for rfc in (0, 1):
+            for a1, a2 in ((b"127.0.0.1", b"127.0.0.2"), (b"127.0.0.2", b"127.0.0.1"), (b"127.0.0.3", b"127.0.0.3")):
+                c = cfg_str(mode=mode, rfc=rfc, tls=0, prop="C06")
+                # ordinary: transfer, disconnect, connect elsewhere, transfer
+                yield eline(c, [con(a1), get(mode, rfc), lst(mode, rfc), "disc:1@" + R(b"221 bye"), con(a2), get(mode, rfc), put(mode, rfc)])
+                # the first session is dropped by the server; the application reconnects without a successful disconnect
+                yield eline(c, [con(a1), lst(mode, rfc), "noop@X", con(a2), lst(mode, rfc), get(mode, rfc)])
+                yield eline(c, [con(a1), get(mode, rfc), "noop@X", "disc:1@", con(a2), get(mode, rfc)])
+                yield eline(c, [con(a1), get(mode, rfc), "noop@" + R(b"421 bye") + ",X", con(a2), put(mode, rfc), lst(mode, rfc)])
+    ctx["scopes"].append("four methods x control connections to 127.0.0.1 / .2 / .3 in sequence, with the first session ended by disconnect, by a dropped connection without disconnect, by a throwing graceful disconnect, by 421")
+
 PROP = {
     "id": "C06",
     "stages": [{"name": "pure", "target": "h_pure", "gen": gen_pure},
-               {"name": "client", "target": "h_client", "gen": gen_c06_client, "shard": 12}],
+               {"name": "client", "target": "h_client", "gen": gen_c06_client, "shard": 12},
+               {"name": "e2e", "target": "h_e2e", "gen": gen_e2e, "shard": 4}],
     "trivial_tags": [],
     "rule": "real try_parse_epsv_reply / try_parse_pasv_reply / make_port_command / make_eprt_command (private statics, harness built with "
             "-fno-access-control) on the stated exhaustive scopes, single-character edits of well-formed replies, malformed field lists and "
